@@ -37,6 +37,7 @@ var faultNames = [...]string{"none", "error", "timeout", "short-write", "eof", "
 type OpFault struct {
 	Side string `json:"side"` // "r" read-side ops, "w" write-side ops, "a" all ops of the connection
 	K    int    `json:"k"`    // index of the op on that side (0-based)
+	AfterHead bool `json:"after_head,omitempty"` // "w" only: count write-side ops issued after this end's handshake head was written
 	Kind int    `json:"kind"`
 	N    int    `json:"n,omitempty"` // short write: bytes accepted before the error
 }
@@ -151,6 +152,7 @@ type SimConn struct {
 	nAll   int
 	nR     int
 	nW     int
+	nWH    int // write-side ops since the head was written
 	faults []OpFault
 	log    []CallEntry
 	nlog   int
@@ -350,8 +352,20 @@ func (c *SimConn) nextIdx(side byte) (all int, fault int, fn int) {
 		c.nW++
 	}
 	c.nAll++
+	kh := -1
+	if side == 'w' && c.out.headEnd >= 0 {
+		kh = c.nWH
+		c.nWH++
+	}
 	for i := range c.faults {
 		f := &c.faults[i]
+		if f.AfterHead {
+			if f.Side == "w" && side == 'w' && f.K == kh {
+				fault = f.Kind
+				fn = f.N
+			}
+			continue
+		}
 		if (f.Side == "a" && f.K == all) || (f.Side == "r" && side == 'r' && f.K == k) || (f.Side == "w" && side == 'w' && f.K == k) {
 			fault = f.Kind
 			fn = f.N
